@@ -1226,6 +1226,12 @@ func (w *World) onChain(blk *blockRec, root common.Root) bool {
 
 // expectedWithdrawals: the harness's own get_expected_withdrawals (spec formula).
 func (w *World) expectedWithdrawals(st common.BeaconState) (common.Withdrawals, error) {
+	return w.withdrawalsOfSweep(st, 0)
+}
+
+// withdrawalsOfSweep: the withdrawals of a sweep over MAX_VALIDATORS_PER_WITHDRAWALS_SWEEP + extra
+// validators (extra = 0: what the specification expects; other values build wrong payloads)
+func (w *World) withdrawalsOfSweep(st common.BeaconState, extra int64) (common.Withdrawals, error) {
 	type wst interface {
 		NextWithdrawalIndex() (common.WithdrawalIndex, error)
 		NextWithdrawalValidatorIndex() (common.ValidatorIndex, error)
@@ -1242,8 +1248,8 @@ func (w *World) expectedWithdrawals(st common.BeaconState) (common.Withdrawals, 
 	n, _ := vals.ValidatorCount()
 	bals, _ := st.Balances()
 	bound := n
-	if uint64(w.spec.MAX_VALIDATORS_PER_WITHDRAWALS_SWEEP) < bound {
-		bound = uint64(w.spec.MAX_VALIDATORS_PER_WITHDRAWALS_SWEEP)
+	if sweep := int64(w.spec.MAX_VALIDATORS_PER_WITHDRAWALS_SWEEP) + extra; sweep >= 0 && uint64(sweep) < bound {
+		bound = uint64(sweep)
 	}
 	var out common.Withdrawals
 	for i := uint64(0); i < bound; i++ {
